@@ -128,7 +128,14 @@ where
 impl Arithmetic for i128 {
     fn add(self, other: Expression) -> Result<Expression, Error> {
         match other {
-            Expression::Number(y) => Ok(Expression::Number(self + y)),
+            Expression::Number(y) => match self.checked_add(y) {
+                Some(total) => Ok(Expression::Number(total)),
+                None => Err(Error::InvalidBinaryOp(
+                    "add".to_string(),
+                    format!("{self:?}"),
+                    format!("{y:?} (overflow)"),
+                )),
+            },
             Expression::None => Ok(Expression::Number(self)),
             _ => Err(Error::InvalidBinaryOp(
                 "add".to_string(),
@@ -139,12 +146,32 @@ impl Arithmetic for i128 {
     }
 
     fn sub(self, other: Expression) -> Result<Expression, Error> {
-        let other_neg = other.neg()?;
-        self.add(other_neg)
+        match other {
+            Expression::Number(y) => match self.checked_sub(y) {
+                Some(total) => Ok(Expression::Number(total)),
+                None => Err(Error::InvalidBinaryOp(
+                    "sub".to_string(),
+                    format!("{self:?}"),
+                    format!("{y:?} (overflow)"),
+                )),
+            },
+            Expression::None => Ok(Expression::Number(self)),
+            _ => Err(Error::InvalidBinaryOp(
+                "sub".to_string(),
+                format!("{self:?}"),
+                format!("{other:?}"),
+            )),
+        }
     }
 
     fn neg(self) -> Result<Expression, Error> {
-        Ok(Expression::Number(-self))
+        match self.checked_neg() {
+            Some(negated) => Ok(Expression::Number(negated)),
+            None => Err(Error::InvalidUnaryOp(
+                "neg".to_string(),
+                format!("{self:?} (overflow)"),
+            )),
+        }
     }
 }
 
